@@ -606,12 +606,16 @@ def run_case(c):
                     fail('findwalks', 'walk-slice0', {'Wq_0': Wq[:, :, 0].tolist()})
                 if not close(wlq, Wq.sum(0).sum(0), 1e-12) or not close(twalk, Wq.sum(), 1e-12):
                     fail('findwalks', 'walk-totals', {'twalk': float(twalk), 'wlq': wlq.tolist()})
-                sl = ';'.join(mat_str(Wq[:, :, q]) for q in range(n))
+                finite = bool(np.all(np.isfinite(Wq))) and bool(np.all(np.isfinite(wlq))) and bool(np.isfinite(twalk))
+                if not finite and not bad:
+                    fail('findwalks', 'walk-count', {'dtype': dt, 'non_finite_entries': int((~np.isfinite(Wq)).sum())}, {'dtype_artefact': False})
                 if artefact:
                     out['nocorr'] = 1
-                elif n <= 8:
-                  out['lines'].append(('findwalks', 'findwalks n=%d A=%s' % (n, mstr),
-                                     {'line': 'Wq=%s twalk=%d wlq=%s' % (sl, int(twalk), ','.join(str(int(x)) for x in wlq))}))
+                elif n <= 8 and finite and bool(np.all(Wq == np.round(Wq))):
+                    # the expected line is only built from finite integer-valued output (a non-finite / fractional result is already a walk-count violation above)
+                    sl = ';'.join(mat_str(Wq[:, :, q]) for q in range(n))
+                    out['lines'].append(('findwalks', 'findwalks n=%d A=%s' % (n, mstr),
+                                         {'line': 'Wq=%s twalk=%d wlq=%s' % (sl, int(twalk), ','.join(str(int(x)) for x in wlq))}))
     return out
 
 
